@@ -86,6 +86,48 @@ theorem queue_history (q : List α) (es : List (QEv α)) (hc : noClear es) (hl :
     simp only [qouts, qrun, qins]
     rw [List.append_assoc, h2, ← List.append_assoc, h1, List.append_assoc]
 
+
+/-- corollary used by C19: from an empty queue, the values returned are a prefix of the values written, i.e. the k-th
+    value returned is the k-th value written (no reordering, loss or duplication) -/
+theorem queue_prefix (es : List (QEv α)) (hc : noClear es) (hl : qlegalAll [] es) :
+    qouts [] es = (qins es).take (qouts [] es).length := by
+  have h := queue_history [] es hc hl
+  simp only [List.nil_append] at h
+  rw [← h, List.take_left]
+
+theorem queue_kth (es : List (QEv α)) (hc : noClear es) (hl : qlegalAll [] es) (k : Nat) (hk : k < (qouts [] es).length) :
+    (qouts [] es)[k]? = (qins es)[k]? := by
+  have h := queue_history [] es hc hl
+  simp only [List.nil_append] at h
+  rw [← h, List.getElem?_append_left hk]
+
+/-! ## Memory (C21, C22): a read returns the value of the latest completed write to that address -/
+
+/-- one cycle of writes to pairwise distinct rows (the caller obligation of C21-C23), as an association list -/
+def mstep' (m : Nat → Nat) (ws : List (Nat × Nat)) : Nat → Nat :=
+  fun a => match ws.find? (fun w => w.1 == a) with
+    | some w => w.2
+    | none => m a
+
+def memrun : (Nat → Nat) → List (List (Nat × Nat)) → (Nat → Nat)
+  | m, [] => m
+  | m, ws :: rest => memrun (mstep' m ws) rest
+
+/-- the value the history says address a should hold: the data of the last cycle that wrote a, else the initial value -/
+def lastWrite (init : Nat) (a : Nat) : List (List (Nat × Nat)) → Nat
+  | [] => init
+  | ws :: rest =>
+    lastWrite (match ws.find? (fun w => w.1 == a) with | some w => w.2 | none => init) a rest
+
+theorem memory_history (m : Nat → Nat) (h : List (List (Nat × Nat))) (a : Nat) :
+    memrun m h a = lastWrite (m a) a h := by
+  induction h generalizing m with
+  | nil => simp [memrun, lastWrite]
+  | cons ws rest ih =>
+    simp only [memrun, lastWrite]
+    rw [ih]
+    simp [mstep']
+
 /-- clear empties the queue whatever else happens in the cycle (C14: "even if write ran in the same cycle"). -/
 theorem clear_empties (q : List α) (e : QEv α) (h : e.clear = true) : qstep q e = [] := by
   simp [qstep, h]
@@ -249,6 +291,9 @@ end Hist
 
 /-! Axiom audit: printed on every run and parsed by engine/lemmas.py (`sorryAx` must not occur). -/
 #print axioms Hist.queue_history
+#print axioms Hist.queue_prefix
+#print axioms Hist.queue_kth
+#print axioms Hist.memory_history
 #print axioms Hist.clear_empties
 #print axioms Hist.read_first_same
 #print axioms Hist.idle_keeps
